@@ -228,7 +228,7 @@ CLI_OPTS = [[], ['--amr', '--reify-edges'], ['--amr', '--canonicalize-roles', '-
 
 
 def run(chk):
-    chk.level = 'exploration' if not THEOREMS else 'proof'
+    chk.level = 'exploration'   # the deciding method is exploration; the Coq theorems cover only the set-iteration-order part
     chk.rule = ('well-formed decoded graphs/trees (two per case, partly overlapping) x 39 public calls; per case: fresh-call reference, '
                 'argument snapshot before/after each pure call, repeated call, a random 12-call interleaving on shared arguments, '
                 'deep-copied and pickled arguments; a subset recomputed under PYTHONHASHSEED 0..3 in subprocesses and in a '
